@@ -1,34 +1,41 @@
 ------------------------------ MODULE MCHostile ------------------------------
 (* Enumeration of the hostile input space of Hostile.tla by TLC, and its export to the driver. *)
-(*  mode "seq"   : every sequence of at most MaxLen tokens of a family (one state each; the    *)
-(*                 token indices are restricted to 1..CoreToks when CoreToks > 0)              *)
+(*  mode "seq"   : every sequence of at most FullLen tokens of a family, and every sequence of  *)
+(*                 at most MaxLen tokens among the family's first CoreToks tokens (one state   *)
+(*                 each)                                                                        *)
 (*  mode "sweep" : every domain character in every context of the family                       *)
 (*  mode "pump"  : every token repeated to about PumpLen characters in every context           *)
+(*  mode "pump2" : every ordered pair of distinct tokens among the first Pump2Toks, repeated to *)
+(*                 about Pump2Len characters, in every context                                 *)
 (*  mode "table" : the families' token tables and function / slot lists (for the seeded driver)*)
 (* Invariants: every generated text is in the domain of the property and within the bounds.    *)
 EXTENDS Hostile, Json
 
-CONSTANTS Fams, MaxLen, CoreToks, PumpLen, Modes
+CONSTANTS Fams, FullLen, MaxLen, CoreToks, PumpLen, Pump2Toks, Pump2Len, Modes
 
 VARIABLES mode, fam, seq, k, c
 vars == <<mode, fam, seq, k, c>>
 
 FamSet == {Families[i] : i \in 1..Len(Families)} \cap Fams
-NTok(f) == IF CoreToks > 0 THEN Min2(CoreToks, Len(Toks(f))) ELSE Len(Toks(f))
+IsCore(sq) == \A i \in 1..Len(sq) : sq[i] <= CoreToks
 
 Init ==
   \/ /\ "seq" \in Modes /\ mode = "seq" /\ fam \in FamSet /\ seq = <<>> /\ k = 0 /\ c = 0
   \/ /\ "sweep" \in Modes /\ mode = "sweep" /\ fam \in FamSet /\ seq = <<>> /\ k \in 1..Len(Ctxs(fam)) /\ c \in DomainChars
   \/ /\ "pump" \in Modes /\ mode = "pump" /\ fam \in FamSet /\ seq = <<>> /\ k \in 1..Len(Ctxs(fam)) /\ c \in 1..Len(Toks(fam))
+  \/ /\ "pump2" \in Modes /\ mode = "pump2" /\ fam \in FamSet /\ k \in 1..Len(Ctxs(fam)) /\ c = 0
+     /\ seq \in {<<a, b>> : a \in 1..Min2(Pump2Toks, Len(Toks(fam))), b \in 1..Min2(Pump2Toks, Len(Toks(fam)))} /\ seq[1] # seq[2]
   \/ /\ "table" \in Modes /\ mode = "table" /\ fam \in FamSet /\ seq = <<>> /\ k = 0 /\ c = 0
 
 Next == /\ mode = "seq" /\ Len(seq) < MaxLen
-        /\ \E j \in 1..NTok(fam) : seq' = Append(seq, j)
+        /\ \E j \in 1..Len(Toks(fam)) : /\ (Len(seq) < FullLen \/ (j <= CoreToks /\ IsCore(seq)))
+                                          /\ seq' = Append(seq, j)
         /\ UNCHANGED <<mode, fam, k, c>>
 
 Text == CASE mode = "seq" -> TextOf(fam, seq)
           [] mode = "sweep" -> SweepText(fam, k, c)
           [] mode = "pump" -> PumpText(fam, k, c, PumpLen)
+          [] mode = "pump2" -> LET unit == TextOf(fam, seq) IN Ctxs(fam)[k][1] \o Rep(unit, Pump2Len \div Len(unit)) \o Ctxs(fam)[k][2]
           [] OTHER -> <<>>
 
 MaxTokLen == 33
@@ -39,6 +46,7 @@ TextInDomain == InDomain(Text)
 TextBounded == CASE mode = "seq" -> Len(Text) <= MaxLen * MaxTokLen
                  [] mode = "sweep" -> Len(Text) <= 64
                  [] mode = "pump" -> Len(Text) <= PumpLen + 64 /\ Len(Text) >= PumpLen \div 2
+                 [] mode = "pump2" -> Len(Text) <= Pump2Len + 64 /\ Len(Text) >= Pump2Len \div 2
                  [] OTHER -> TRUE
 
 Export == IF mode = "table"
